@@ -1,7 +1,7 @@
 (** * C04: order statements for the coupled second-moment recurrence over the real numbers.
     (1) one-step contraction of the deviation from the fixed point in the norm N of Model/Moments2Fix.v,
         with the explicit factor rho = (1-e) + e^2 g1 g2 / ((1-e) DG), for every underdamped setting (DG > 0);
-    (2) on the documented domain (0 < e <= 1/10, e <= a <= t, a t <= 1/50): DG > 0 and rho <= 1 - 4e/5;
+    (2) on the underdamped domain (0 < e <= 1/10, e <= a <= t, a t <= 1): DG > 0 and rho <= 1 - 4e/5;
     (3) geometric convergence of the iterates to the fixed point, component by component;
     (4) the fixed point in natural units is 1 within delta^2/2 + e/2 + a^2;
     (5) J = t Muu + a t Muv + a Mvv: constant / strictly increasing / strictly decreasing per step. *)
@@ -186,7 +186,7 @@ Section NormR.
 End NormR.
 
 (** ** the documented domain: underdamped, DG > 0 and rho <= 1 - 4e/5 *)
-Definition dom_ud (a t e : R) : Prop := 0 < e <= 1 / 10 /\ e <= a /\ a <= t /\ a * t <= 1 / 50.
+Definition dom_ud (a t e : R) : Prop := 0 < e <= 1 / 10 /\ e <= a /\ a <= t /\ a * t <= 1.
 
 Lemma dom_DG a t e : dom_ud a t e -> 13 / 20 * (a * t) <= DG (K:=RF) a t e /\ 0 < DG (K:=RF) a t e.
 Proof.
